@@ -300,6 +300,34 @@ def gen_concat(ctx):
     return cases
 
 
+BACKINGS = ["np", "np_f", "np_strided", "np_negstride", "f32", "xr", "xr_dask", "xr_lab", "xr_revx", "xr_float", "xr_yone"]
+
+
+def gen_joint(ctx):
+    """slicing chains whose parent and children are requested lazily with the SAME chunks and evaluated in ONE dask.compute"""
+    r = ctx.rng
+    cases = []
+    for i in range(ctx.n(60, 500)):
+        h, w = r.randint(2, 8), r.randint(2, 8)
+        area = rand_area(r, w, h, crs=r.choice([0, 1, 2, 3]))
+        keys, ch_, cw_ = [], h, w
+        for _ in range(r.randint(1, 2)):
+            if i % 5 < 3:        # anchored at the upper-left corner: child and parent share pixel_upper_left and pixel size
+                ys = (r.choice([None, 0, -ch_]), r.choice([None, -1, r.randint(1, ch_)]) if ch_ > 1 else None)
+                xs = (r.choice([None, 0, -cw_]), r.choice([None, -1, r.randint(1, cw_)]) if cw_ > 1 else None)
+            else:
+                ys, xs = rand_slice(r, ch_), rand_slice(r, cw_)
+            if not sel(ch_, ys):
+                ys = (None, None)
+            if not sel(cw_, xs):
+                xs = (None, None)
+            keys.append([list(ys), list(xs)])
+            ch_, cw_ = len(sel(ch_, ys)), len(sel(cw_, xs))
+        chunks = r.choice([1, 2, 3, 4, [r.randint(1, 4), r.randint(1, 4)], 4096])
+        cases.append({"area": area, "keys": keys, "chunks": chunks, "reverse": i % 2 == 1})
+    return cases
+
+
 def gen_swath(ctx):
     r = ctx.rng
     cases = []
@@ -318,7 +346,7 @@ def gen_swath(ctx):
             ys, xs = rand_slice(r, cn), rand_slice(r, cm)
             keys.append([ys, xs])
             cn, cm = len(sel(cn, ys)), len(sel(cm, xs))
-        cases.append({"n": n, "m": m, "keys": keys, "cls": "future" if i % 2 else "legacy"})
+        cases.append({"n": n, "m": m, "keys": keys, "cls": "future" if i % 2 else "legacy", "backing": BACKINGS[(i // 2) % len(BACKINGS)]})
     conc = []
     for i in range(ctx.n(120, 1200)):
         n1, n2, m = r.randint(1, 7), r.randint(1, 7), r.randint(1, 6)
@@ -327,7 +355,7 @@ def gen_swath(ctx):
         key = [[r.randint(0, total), r.randint(0, total + 2)], rand_slice(r, m)] if i % 2 else [rand_slice(r, total), rand_slice(r, m)]
         if not sel(total, key[0]):
             key[0] = [None, None]
-        conc.append({"n1": n1, "n2": n2, "m": m, "m2": m2, "cls": "future" if i % 2 else "legacy",
+        conc.append({"n1": n1, "n2": n2, "m": m, "m2": m2, "cls": "future" if i % 2 else "legacy", "backing": BACKINGS[(i // 2) % len(BACKINGS)],
                      "key": key if m2 == m else None, "k": r.randint(1, n1 - 1) if n1 > 1 else None})
     return cases, conc
 
@@ -426,7 +454,11 @@ def run(ctx):
                 "mismatch) with all row windows as data_slice; legacy and future swaths sliced (same enumeration) and "
                 "concatenated; the other code paths of get_lonlats on small areas and stacks with gaps: dask chunks (int, pair, explicit "
                 "tuples, chunk count equal / unequal to the member count), histories of 3-6 get_lonlats(data_slice, cache) calls on one "
-                "object (stack calls interleaved with direct member calls), plain-slice data_slice, nprocs=2. Non-trivial = the slice is a proper sub-window / the chain has >= 2 steps / the stack has >= 2 "
+                "object (stack calls interleaved with direct member calls), plain-slice data_slice, nprocs=2; slicing chains (most anchored at the "
+                "upper-left corner) whose parent and children are requested lazily with the same chunks and evaluated in ONE dask.compute, "
+                "compared with stand-alone evaluation; swath arrays also as Fortran-ordered / strided / negative-stride / float32 numpy arrays and "
+                "as xarray.DataArray (unlabelled, dask-backed, int labels, reversed column labels, non-identical float labels, row labels on one "
+                "operand). Non-trivial = the slice is a proper sub-window / the chain has >= 2 steps / the stack has >= 2 "
                 "members with a row window starting after row 0 / the concatenation changes the shape; distinct = distinct inputs")
     ctx.exhaustive = True
     gcases, mal = gen_getitem(ctx)
@@ -435,10 +467,11 @@ def run(ctx):
     ccases = gen_concat(ctx)
     swc, swconc = gen_swath(ctx)
     apaths, spaths = gen_paths(ctx)
+    jcases = gen_joint(ctx)
     payload = {"crs": CRS,
                "getitem": [{k: v for k, v in c.items() if k != "kind"} for c in gcases + mal],
                "stack": scases, "split": spl, "concat": ccases, "swath": swc, "swath_concat": swconc,
-               "area_paths": apaths, "stack_paths": spaths}
+               "area_paths": apaths, "stack_paths": spaths, "joint": jcases}
     import sys
     import time
     t0 = time.time()
@@ -682,9 +715,12 @@ def run(ctx):
         ctx.case(("sw", n, m, repr(keys), c["cls"]), nontrivial=len(keys) > 1 or len(sel(n, keys[0][0])) < n or len(sel(m, keys[0][1])) < m,
                  sample=samp({"swath_slice": {"shape": [n, m], "keys": keys, "class": c["cls"]}}))
         ctx.count("swath_slice_" + c["cls"])
+        bk = c.get("backing", "np")
+        ctx.count("swath_backing_" + bk)
+        sfx = "" if bk == "np" else ".input_type"
         rep = {"oracle": "swath", "case": c}
         if "error" in o:
-            ctx.add_failure("C10.swath.slice", "swath %s of shape %s raises %s" % (c["cls"], (n, m), o["error"]), rep)
+            ctx.add_failure("C10.swath.slice" + sfx, "swath %s (%s) of shape %s raises %s" % (c["cls"], bk, (n, m), o["error"]), rep)
             continue
         rows, cols = list(range(n)), list(range(m))
         ok = True
@@ -693,8 +729,8 @@ def run(ctx):
             want = [[r_ * 1000 + c_ for c_ in cols] for r_ in rows]
             want_mod = "pyresample.future.geometry.swath" if c["cls"] == "future" else "pyresample.geometry"
             if "error" in st or st["lons"] != want or not st["lats_ok"] or st["shape"] != [len(rows), len(cols)] or st["module"] != want_mod:
-                ctx.add_failure("C10.swath.slice", "%s swath of shape %s sliced by %s gives %s, expected rows %s cols %s"
-                                % (c["cls"], (n, m), keys, {k: v for k, v in st.items() if k != "lons"}, rows, cols), rep)
+                ctx.add_failure("C10.swath.slice" + sfx, "%s swath (arrays as %s) of shape %s sliced by %s gives %s, expected rows %s cols %s"
+                                % (c["cls"], bk, (n, m), keys, {k: v for k, v in st.items() if k != "lons"}, rows, cols), rep)
                 ok = False
                 break
         if ok and len(o["steps"]) == len(keys) and n <= 12 and m <= 12:
@@ -708,20 +744,23 @@ def run(ctx):
         n1, n2, m, m2 = c["n1"], c["n2"], c["m"], c["m2"]
         ctx.case(("swc", repr(c)), nontrivial=True, sample=samp({"swath_concat": {"shapes": [[n1, m], [n2, m2]], "class": c["cls"], "key": c["key"]}}))
         ctx.count("swath_concat_" + c["cls"])
+        bk = c.get("backing", "np")
+        ctx.count("swath_concat_backing_" + bk)
+        sfx = "" if bk == "np" else ".input_type"
         rep = {"oracle": "swath_concat", "case": c}
         if "error" in o:
-            ctx.add_failure("C10.swath.concat", "swath concatenation %s raises %s" % (c, o["error"]), rep)
+            ctx.add_failure("C10.swath.concat" + sfx, "swath concatenation %s raises %s" % (c, o["error"]), rep)
             continue
         a = [[r_ * 1000 + c_ for c_ in range(m)] for r_ in range(n1)]
         b = [[(r_ + 500) * 1000 + c_ for c_ in range(m2)] for r_ in range(n2)]
         cc = o["concat"]
         if m != m2:
             if "error" not in cc:
-                ctx.add_failure("C10.swath.concat", "swaths of different widths %s are concatenated into shape %s" % (c, cc.get("shape")), rep)
+                ctx.add_failure("C10.swath.concat" + sfx, "swaths of different widths %s are concatenated into shape %s" % (c, cc.get("shape")), rep)
             continue
         if "error" in cc or cc["lons"] != a + b or not cc["lats_ok"] or cc["shape"] != [n1 + n2, m]:
-            ctx.add_failure("C10.swath.concat", "concatenate of swaths (%d,%d)+(%d,%d) is not the row-wise concatenation: %s"
-                            % (n1, m, n2, m, {k: v for k, v in cc.items() if k != "lons"}), rep)
+            ctx.add_failure("C10.swath.concat" + sfx, "concatenate of %s swaths (arrays as %s) (%d,%d)+(%d,%d) is not the row-wise concatenation: %s"
+                            % (c["cls"], bk, n1, m, n2, m, {k: v for k, v in cc.items() if k != "lons"}), rep)
             continue
         L.append("(%s, %s, %s)" % (zgrid(a), zgrid(b), zgrid(cc["lons"])))
         if "concat_slice" in o:
@@ -734,11 +773,11 @@ def run(ctx):
         if "append" in o:
             ap = o["append"]
             if ap["lons"] != a + b or not ap["lats_ok"] or ap["shape"] != [n1 + n2, m] or ap["size"] != (n1 + n2) * m:
-                ctx.add_failure("C10.swath.append", "append of swaths (%d,%d)+(%d,%d): %s" % (n1, m, n2, m, {k: v for k, v in ap.items() if k != "lons"}), rep)
+                ctx.add_failure("C10.swath.append" + sfx, "append of swaths (arrays as %s) (%d,%d)+(%d,%d): %s" % (bk, n1, m, n2, m, {k: v for k, v in ap.items() if k != "lons"}), rep)
         if "split" in o:
             sp = o["split"]
-            if not (sp["lons_eq"] and sp["lats_eq"] and sp["eq"] and sp["shape"] == [n1, m]):
-                ctx.add_failure("C10.swath.split", "swath (%d,%d) split at row %s and concatenated: %s" % (n1, m, c["k"], sp), rep)
+            if "error" in sp or not (sp["lons_eq"] and sp["lats_eq"] and sp["eq"] and sp["shape"] == [n1, m]):
+                ctx.add_failure("C10.swath.split" + sfx, "swath (arrays as %s) (%d,%d) split at row %s and concatenated: %s" % (bk, n1, m, c["k"], sp), rep)
     texts.append(("c10_swath_concat", HDR + "Definition cases := [%s].\nEval vm_compute in (bad chk_swath_concat cases).\n" % ";\n".join(L), L, "swath_concat"))
 
 
@@ -830,6 +869,36 @@ def run(ctx):
     if L_memo:
         texts.append(("c10_memo", HDR + "Definition cases := [%s].\nEval vm_compute in (bad chk_memo cases).\n" % ";\n".join(L_memo), L_memo, "cache_memo"))
 
+    # ================================================================ lazily requested coordinates of parent and children, ONE dask.compute
+    names = ["proj x", "proj y", "lons", "lats"]
+    for c, o in zip(jcases, obs["joint"]):
+        area, keys = c["area"], c["keys"]
+        anchored = all(sel(99, k[0])[:1] == [0] and sel(99, k[1])[:1] == [0] for k in keys)
+        ctx.case(("joint", repr(area), repr(keys), repr(c["chunks"])), nontrivial=True,
+                 sample=samp({"joint_compute": {"shape": [area["h"], area["w"]], "keys": keys, "chunks": c["chunks"], "child_shapes": o.get("shapes")}}))
+        ctx.count("joint_compute_" + ("upper_left_anchored" if anchored else "other"))
+        rep = {"oracle": "joint", "case": c}
+        if "error" in o:
+            ctx.add_failure("C10.getitem.joint_compute", "lazy coordinates of %s sliced by %s with chunks=%s raise %s" % (area, keys, c["chunks"], o["error"]), rep)
+            continue
+        if isinstance(o["joint"], dict):
+            ctx.add_failure("C10.getitem.joint_compute", "area %s %s and its slices %s, coordinates requested with chunks=%s: ONE dask.compute of all of them raises %s"
+                            % ((area["h"], area["w"]), area["ext"], keys, c["chunks"], o["joint"]["error"]), rep)
+            continue
+        for i, (j, a, nmp) in enumerate(zip(o["joint"], o["alone"], o["numpy"])):
+            which = "the parent" if i < 4 else "slice %d" % (i // 4)
+            tol = 0.0 if i % 4 < 2 else 1e-9
+            if not close_grid(a, nmp, tol):
+                ctx.add_failure("C10.lonlats.dask", "area %s sliced by %s, chunks=%s: %s of %s computed alone differ from the numpy path"
+                                % ((area["h"], area["w"]), keys, c["chunks"], names[i % 4], which), rep)
+                break
+            if np.asarray(j).shape != np.asarray(a).shape or j != a:
+                ctx.add_failure("C10.getitem.joint_compute", "area %s %s and its slices %s (shapes %s), coordinates requested lazily with chunks=%s and evaluated in "
+                                "ONE dask.compute: %s of %s come back with shape %s, computed alone they have shape %s%s"
+                                % ((area["h"], area["w"]), area["ext"], keys, o["shapes"], c["chunks"], names[i % 4], which,
+                                   list(np.asarray(j).shape), list(np.asarray(a).shape), "" if np.asarray(j).shape != np.asarray(a).shape else " and other values"), rep)
+                break
+
     # ================================================================ evaluate the model inside Coq
     texts = [t for t in texts if t[2]]
     t1 = time.time()
@@ -877,6 +946,8 @@ def replay(ctx, data):
         sub.check({"swath_concat": [case["case"]]}, None, "swath_concat", case["case"])
     elif kind in ("area_paths", "stack_paths"):
         sub.check({}, None, kind, case["case"])
+    elif kind == "joint":
+        sub.check({}, None, kind, case["case"])
     return bool(sub.ctx.failures)
 
 
@@ -887,13 +958,14 @@ class Replayer:
         self.ctx = ctx
 
     def check(self, payload, gen, which, single=None):
-        global gen_getitem, gen_stack, gen_split, gen_concat, gen_swath, gen_paths, gen_split_chain
-        saved = (gen_getitem, gen_stack, gen_split, gen_concat, gen_swath, gen_paths, gen_split_chain)
+        global gen_getitem, gen_stack, gen_split, gen_concat, gen_swath, gen_paths, gen_split_chain, gen_joint
+        saved = (gen_getitem, gen_stack, gen_split, gen_concat, gen_swath, gen_paths, gen_split_chain, gen_joint)
         try:
             gen_getitem = (lambda ctx: gen()) if which == "getitem" else (lambda ctx: ([], []))
             gen_stack = (lambda ctx: [single]) if which == "stack" else (lambda ctx: [])
             gen_split = (lambda ctx: [single]) if which == "split" else (lambda ctx: [])
             gen_split_chain = lambda ctx: []
+            gen_joint = (lambda ctx: [single]) if which == "joint" else (lambda ctx: [])
             gen_concat = (lambda ctx: [single]) if which == "concat" else (lambda ctx: [])
             gen_swath = (lambda ctx: ([single], [])) if which == "swath" else \
                 ((lambda ctx: ([], [single])) if which == "swath_concat" else (lambda ctx: ([], [])))
@@ -901,4 +973,4 @@ class Replayer:
                 ((lambda ctx: ([], [single])) if which == "stack_paths" else (lambda ctx: ([], [])))
             run(self.ctx)
         finally:
-            gen_getitem, gen_stack, gen_split, gen_concat, gen_swath, gen_paths, gen_split_chain = saved
+            gen_getitem, gen_stack, gen_split, gen_concat, gen_swath, gen_paths, gen_split_chain, gen_joint = saved
